@@ -121,7 +121,7 @@ Proof. unfold rinv, rt_init, pcount, nlen; cbn [r_cur r_parts]. rewrite repeat_l
 
 Lemma rstep_inv t o : rinv t -> rinv (fst (rstep t o)).
 Proof.
-  intros [Hc Hm]. destruct o as [p msgs|n|n]; unfold rstep.
+  intros [Hc Hm]. destruct o as [p msgs|n|n| | |p msgs]; unfold rstep.
   - destruct (N.eqb_spec (pcount t) 0); [split; assumption|].
     destruct msgs; [split; assumption|].
     assert (Hs : forall pid cur', 1 <= cur' ->
@@ -140,6 +140,9 @@ Proof.
     unfold rinv, pcount, nlen in *; cbn [fst r_cur r_parts]. rewrite app_length, repeat_length. lia.
   - destruct (N.eqb_spec n 0); [split; assumption|].
     unfold rinv, pcount, nlen in *; cbn [fst r_cur r_parts]. rewrite firstn_length. lia.
+  - unfold rinv, pcount, nlen in *; cbn [fst r_cur r_parts]. lia.
+  - unfold rinv, pcount, nlen in *; cbn [fst r_cur r_parts]. rewrite map_length. lia.
+  - split; assumption.
 Qed.
 
 Lemma rrun_inv t ops : rinv t -> rinv (fst (rrun t ops)).
